@@ -397,7 +397,8 @@ def analyse_task(task: Tuple[str, str, str, bool, int, List[str]]) -> Dict[str, 
     prog = loadvc.extract_program(kind, comps, {c: "VARCHAR" for c in comps})
     eng = loadvc.LoadEngine()
     eng.max_paths = 20000
-    eng.max_int_digits = 10       # period numbers of the longest analysed texts (thorough: 13 characters) stay in the model
+    eng.cpu_budget = 900.0        # CPU seconds of this worker (slowest whole analysis on the unchanged tree: ~330 s wall); beyond: undecided
+    eng.max_int_digits = 10      # period numbers of the longest analysed texts (thorough: 13 characters) stay in the model
     chars = [eng.decls.const(f"c{i}", smt.INT) for i in range(n)]
     pre = domain(tname, chars)
     doc, gen = spec_alts(tname, chars)
